@@ -119,10 +119,19 @@ func cmdVerify(args []string) {
 			continue
 		}
 		np, nf := 0, 0
+		retReach := false
+		for _, o := range res.Obls {
+			if o.Canary && o.Status != "proved" && strings.Contains(o.Name, "#canary[ret") {
+				retReach = true
+			}
+		}
 		for _, o := range res.Obls {
 			ok := o.Status == "proved"
 			if o.Canary {
 				ok = o.Status != "proved"
+				if strings.Contains(o.Name, "#canary[ret") {
+					ok = retReach // infeasible individual paths are fine as long as some return is reachable
+				}
 			}
 			if ok {
 				np++
@@ -153,7 +162,3 @@ func trunc(s string, n int) string {
 	return s
 }
 
-func cmdCheck(args []string) int {
-	fmt.Fprintln(os.Stderr, "check: not implemented yet")
-	return 2
-}
